@@ -21,9 +21,12 @@ type Variant struct {
 	Fee1  string
 	Fee2  string
 	Pool3 bool
-	Host  float64
-	Walk  float64
-	Jump  int
+	// LevPool2: a second oracle pool (uelys/uusdc) exists and governance enables leveragelp (and with it
+	// a perpetual market and an accounted pool) on it as well
+	LevPool2 bool
+	Host     float64
+	Walk     float64
+	Jump     int
 	// SparseSweep: governance makes the leveragelp begin-block sweep sparse (few positions per
 	// block, long epoch) so that interest really accrues lazily between touches of a debt; with the
 	// default (1000 positions every block) every debt is refreshed in every begin-block.
@@ -43,6 +46,7 @@ func NewVariant(c *run.Ctx) *Variant {
 	v.Walk = []float64{0.06, 0.02, 0.12}[r.Intn(3)]
 	v.Jump = []int{60, 30, 0, 100}[r.Intn(4)]
 	v.SparseSweep = c.Job.Index%3 != 0
+	v.LevPool2 = c.Job.Index%5 == 4
 	return v
 }
 
@@ -53,7 +57,7 @@ func (v *Variant) World(c *run.Ctx, probes bool, nUsers int) *chain.World {
 }
 
 func (v *Variant) Prologue(w *chain.World) {
-	w.Prologue(chain.PrologueCfg{Scale: v.Scale, Pool3: v.Pool3, W2A: v.W2A, W2B: v.W2B, Fee1: v.Fee1, Fee2: v.Fee2})
+	w.Prologue(chain.PrologueCfg{Scale: v.Scale, Pool3: v.Pool3, W2A: v.W2A, W2B: v.W2B, Fee1: v.Fee1, Fee2: v.Fee2, LevPool2: v.LevPool2})
 	v.Sweep(w)
 }
 
@@ -70,7 +74,7 @@ func (v *Variant) Sweep(w *chain.World) {
 
 func (v *Variant) Gen(w *chain.World, c *run.Ctx, mix gen.Mix) *gen.Gen {
 	g := gen.New(w, c.Job.Sub(99), mix)
-	g.Hostile, g.Walk, g.JumpEvery, g.Pool3 = v.Host, v.Walk, v.Jump, v.Pool3
+	g.Hostile, g.Walk, g.JumpEvery, g.Pool3, g.LevPool2 = v.Host, v.Walk, v.Jump, v.Pool3, v.LevPool2
 	return g
 }
 
